@@ -620,8 +620,9 @@ impl ZiPatch {
                                     // reverse reading crc32
                                     file.seek(SeekFrom::Current(-4))?;
 
-                                    let mut data: Vec<u8> =
-                                        Vec::with_capacity(fop.file_size as usize);
+                                    // file_size comes from the patch and is not trustworthy enough
+                                    // to reserve memory by
+                                    let mut data: Vec<u8> = Vec::new();
 
                                     while data.len() < fop.file_size as usize {
                                         data.append(
